@@ -38,7 +38,9 @@ TraceInit ==
     /\ ridx = ToSet(Traces[tid].init.ridx)
     /\ delivered = [s \in Stores |-> PresentSet(store, s)]
     \* a store that starts with mismatching objects has been tampered with before the trace begins
+    \* (and one that starts with a directory object but not all its files was not closed to begin with)
     /\ opened = {s \in Stores : \E o \in Oids : store[s][o] \in {"bad_u", "bad_p"}}
+                \cup {Unclosed(s) : s \in {t \in Stores : ~Closed(store, t)}}
     /\ gced = {} /\ unfin = {} /\ dev = {}
     /\ nx = 0 /\ act = [op |-> "Init"] /\ last = [op |-> "init"]
     /\ ph = "idle" /\ xs = [src |-> None] /\ todo = {} /\ cur = None /\ bound = {} /\ curFails = {}
@@ -131,7 +133,8 @@ Judge ==
         T == store'
     IN
     \* ---- every step -------------------------------------------------------
-    /\ ((dev' = {} => \A s \in Stores : s \notin opened' => Closed(T, s)) \/ Say("VERDICT", "C04", "Closed"))
+    /\ ((dev' = {} => \A s \in Stores : (s \notin opened' /\ Unclosed(s) \notin opened') => Closed(T, s))
+            \/ Say("VERDICT", "C04", "Closed"))
     /\ (C12_IndexX(T, ridx', delivered', opened', gced') \/ Say("VERDICT", "C12", "Index"))
     /\ ((\A s \in Stores : s \notin opened' => \A o \in Oids : T[s][o] \in {Absent, "ok_u", "ok_p"})
             \/ Say("VERDICT", "C01", "Addressed"))
